@@ -122,6 +122,43 @@ func fixedScenarios(f lib.Flags) []Scenario {
 	return res
 }
 
+// stallScenarios: a backpressure subscriber stops receiving WITHOUT cancelling and stays away for longer than any
+// patience a writer might have (Value.Set gives up after 5 s; a collection write has no deadline): the writers parked
+// on it stay parked for the whole time, and once the slow subscriber cancels (or resumes) every event still reaches
+// every other subscriber, registered before or after the slow one — a healthy PullID subscriber behind it sees the
+// REMOVE and ends, a healthy Pull subscriber sees each event exactly once.  Each scenario takes a little over
+// StallMs of wall-clock: they run in worker processes of their own, concurrently with everything else.
+func stallScenarios(f lib.Flags) []Scenario {
+	b := boundMs(f)
+	stall := 5600
+	slow := func(consume string, uo bool) SubSpec {
+		return SubSpec{Kind: "pull", BP: true, UpdatesOnly: uo, Consume: consume, StopAfter: 1, Cancel: "end"}
+	}
+	res := []Scenario{
+		{Class: "long-stall/pullid-behind", Res: "collection", Initial: []string{"x"},
+			Writers: [][]Op{{{Kind: "upd", ID: "w0-a"}, {Kind: "del", ID: "x"}}},
+			Subs: []SubSpec{slow("none", true),
+				{Kind: "pullid", ID: "x", BP: true, Consume: "drain", Cancel: "never"}}},
+		{Class: "long-stall/pull-behind+before", Res: "collection", Initial: []string{"x"},
+			Writers: [][]Op{{{Kind: "upd", ID: "w0-a"}, {Kind: "upd", ID: "w0-b"}, {Kind: "del", ID: "w0-a"}, {Kind: "upd", ID: "x"}, {Kind: "del", ID: "x"}}},
+			Subs: []SubSpec{{Kind: "pull", BP: true, Consume: "drain", Cancel: "end"}, slow("stop", false),
+				{Kind: "pull", BP: true, UpdatesOnly: true, Consume: "drain", Cancel: "end"},
+				{Kind: "pullid", ID: "x", BP: false, Consume: "drain", Cancel: "never"}}},
+	}
+	if f.Thorough() {
+		res = append(res, Scenario{Class: "long-stall/two-slow", Res: "collection", Initial: []string{"x"},
+			Writers: [][]Op{{{Kind: "upd", ID: "x"}, {Kind: "upd", ID: "x"}, {Kind: "del", ID: "x"}}, collOps(0, 3, nil)},
+			Subs: []SubSpec{slow("none", false), {Kind: "pullid", ID: "x", BP: true, UpdatesOnly: true, Consume: "drain", Cancel: "never"},
+				slow("stop", true), {Kind: "pull", BP: true, Consume: "drain", Cancel: "end"}}})
+	}
+	for i := range res {
+		res[i].Mode = "stress"
+		res[i].BoundMs = b
+		res[i].StallMs = stall
+	}
+	return res
+}
+
 // pointScenarios: for every yield point reached in phase 1 and every occurrence up to a cap, a
 // scenario in which the subscription's context is cancelled INSIDE that yield (optionally lingering
 // there so that the watcher goroutine runs while the other goroutine sits in the window).
